@@ -1538,13 +1538,15 @@ namespace bloch::compiler {
                 if (*right == 0)
                     throw BlochError(ErrorCategory::Semantic, bin->line, bin->column,
                                      "division by zero in constant integer expression");
-                return *left / *right;
+                // the most negative int divided by -1 traps on the machine; divide in 64 bits and
+                // narrow, as the evaluator does
+                return static_cast<int>(static_cast<std::int64_t>(*left) / *right);
             }
             if (bin->op == "%") {
                 if (*right == 0)
                     throw BlochError(ErrorCategory::Semantic, bin->line, bin->column,
                                      "modulo by zero in constant integer expression");
-                return *left % *right;
+                return static_cast<int>(static_cast<std::int64_t>(*left) % *right);
             }
             return std::nullopt;
         }
